@@ -42,7 +42,7 @@ fn run_mapped(v: &Value, salt: usize) -> Result<(), String> {
     let chunks: Vec<Vec<Value>> = serde_json::from_value(v["chunks"].clone()).unwrap();
     let steps: Vec<Vec<Value>> = serde_json::from_value(v["steps"].clone()).unwrap();
     let fin: Vec<Value> = serde_json::from_value(v["final"].clone()).unwrap();
-    for (variant, marker) in [("mapped-drop", b'\n'), ("mapped-unwrap", 0u8), ("line_mapped-drop", b'\n')] {
+    for (variant, marker) in [("mapped-drop", b'\n'), ("mapped-unwrap", 0u8), ("line_mapped-drop", b'\n'), ("mapped-flushing-drop", b';')] {
         let store = Rc::new(RefCell::new(Vec::new()));
         let f = |mut seg: Vec<u8>| { let mut o = b"<P>".to_vec(); o.append(&mut seg); o };
         let mut w = if variant.starts_with("line") { line_mapped(Shared(store.clone()), f) } else { mapped(Shared(store.clone()), marker, f) };
@@ -53,6 +53,8 @@ fn run_mapped(v: &Value, salt: usize) -> Result<(), String> {
             off += bytes.len();
             input.extend_from_slice(&bytes);
             w.write_all(&bytes).map_err(|e| format!("{variant}: write failed: {e}"))?;
+            // a flush between two writes is not a segment boundary
+            if variant.contains("flushing") { w.flush().map_err(|e| format!("{variant}: flush failed: {e}"))?; }
             let want = expected(&steps[i], &input, marker);
             if *store.borrow() != want {
                 return Err(format!("{variant}: after write {} the inner writer holds {:?}, the specification says {:?}", i + 1, String::from_utf8_lossy(&store.borrow()), String::from_utf8_lossy(&want)));
@@ -72,6 +74,7 @@ fn run_mapped(v: &Value, salt: usize) -> Result<(), String> {
         let bytes = sym(c, b'\n', salt);
         input.extend_from_slice(&bytes);
         t.write_all(&bytes).map_err(|e| format!("tee: {e}"))?;
+        t.flush().map_err(|e| format!("tee: flush: {e}"))?;
     }
     if *a.borrow() != input || *b.borrow() != input {
         return Err(format!("tee: targets hold {:?} / {:?}, input was {:?}", String::from_utf8_lossy(&a.borrow()), String::from_utf8_lossy(&b.borrow()), String::from_utf8_lossy(&input)));
